@@ -19,7 +19,7 @@ import numpy as np
 warnings.simplefilter("ignore")
 
 KEY = {"time": 0, "pos": 1, "track_id": 2, "lineage_id": 3, "area": 4, "ellipse_axis_radii": 5, "circularity": 6,
-       "perimeter": 7, "iou": 8, "z": 10, "y": 11, "x": 12, "c1": 100, "c2": 101}
+       "perimeter": 7, "iou": 8, "z": 10, "y": 11, "x": 12, "c1": 100, "c2": 101, "bogus": 999}
 KEYNAME = {v: k for k, v in KEY.items()}
 RP_KEYS = ["pos", "area", "ellipse_axis_radii", "circularity", "perimeter"]
 
@@ -263,7 +263,11 @@ def gen_op(rng, t, cfg, ids_seen):
     w = [("ae", 16), ("de", 13), ("an", 14), ("dn", 10), ("sw", 6), ("ua", 5), ("u", 11), ("r", 6), ("q", 4)]
     if cfg["seg"]:
         w.append(("p", 18))
+    if cfg.get("toggles"):
+        w.append(("tg", int(100 * cfg["toggles"])))
     kind = rng.choices([k for k, _ in w], [x for _, x in w])[0]
+    if kind == "tg":
+        return gen_toggle(rng, t, cfg)
     if kind == "ae":
         r = rng.random()
         u = v = None
@@ -407,6 +411,55 @@ def gen_op(rng, t, cfg, ids_seen):
     return "P %d %d %s %d %d" % (new, tm, ".".join(map(str, idx)), tid, f), do_paint, "paint"
 
 
+def toggle_domain(cfg):
+    """managed keys the generator may switch (numeric-kernel domain limits respected)"""
+    ks = []
+    if cfg["seg"]:
+        ks += ["pos", "area", "iou"]
+        iso = cfg["scale"] is None or len(set(cfg["scale"][1:])) == 1
+        if cfg["ndim"] == 3:
+            ks.append("ellipse_axis_radii")
+            if iso:
+                ks += ["perimeter", "circularity"]
+    return ks
+
+
+def comps_txt(comps):
+    return ";".join(",".join(str(int(n)) for n in c) for c in comps) if comps else "-"
+
+
+def gen_toggle(rng, t, cfg):
+    g = t.graph
+    dom = toggle_domain(cfg)
+    act = {k for ann in t.annotators for k, (_, on) in ann.all_features.items() if on}
+    r = rng.random()
+    if r < 0.55:
+        pool = dom + ["track_id", "lineage_id"]
+        ks = rng.sample(pool, rng.randint(1, min(3, len(pool))))
+        if rng.random() < 0.15:
+            ks.insert(rng.randrange(len(ks) + 1), "bogus")
+        # the answers of the component oracle, computed the way the annotator will
+        ctrk = clin = None
+        if "bogus" not in ks:
+            if "track_id" in ks:
+                cp = g.copy()
+                for p_ in [n for n, d in g.out_degree() if d >= 2]:
+                    for d_ in list(g.successors(p_)):
+                        cp.remove_edge(p_, d_)
+                ctrk = [list(c) for c in nx.weakly_connected_components(cp)]
+            if "lineage_id" in ks:
+                clin = [list(c) for c in nx.weakly_connected_components(g)]
+        line = "EN %s 1 %s %s" % (",".join(str(KEY[k]) for k in ks), comps_txt(ctrk), comps_txt(clin))
+        return line, (lambda: t.enable_features(list(ks))), "enable"
+    pool = [k for k in dom if k in act] or dom or ["bogus"]
+    ks = rng.sample(pool, rng.randint(1, min(2, len(pool))))
+    if rng.random() < 0.2:
+        ks.insert(rng.randrange(len(ks) + 1), "bogus")
+    if not cfg["seg"] and "bogus" not in ks:
+        ks = ["bogus"]
+    return "DIS %s" % ",".join(str(KEY[k]) for k in ks), (lambda: t.disable_features(list(ks))), "disable"
+
+
 def classify(exc):
     from funtracks.exceptions import InvalidActionError
 
@@ -425,12 +478,13 @@ def classify(exc):
     return 99
 
 
-def run_scenario(seed, idx, nsteps=None, seg_p=0.5, on_step=None):
+def run_scenario(seed, idx, nsteps=None, seg_p=0.5, on_step=None, toggles=0.0):
     """returns dict(lines, obs (one per line that produces a record), kinds, cfg)"""
     import random
 
     rng = random.Random(repr((seed, idx)))
     cfg = gen_config(rng, seg_p)
+    cfg["toggles"] = toggles
     g, seg = gen_forest(rng, cfg)
     t = build_tracks(cfg, g, seg)
     cnt = [0, "-"]
